@@ -114,10 +114,18 @@ def perturb(rng, desc, rtol, atol):
             d["objectives"][j] = -d["objectives"][j]
             return d, "one:objectives"
         if what == "alternatives":
-            d["alternatives"][rng.randrange(n)] = "ZZnew"
+            if n >= 2 and rng.random() < 0.5:   # same labels, another order (labels only)
+                i, j = rng.sample(range(n), 2)
+                d["alternatives"][i], d["alternatives"][j] = d["alternatives"][j], d["alternatives"][i]
+            else:
+                d["alternatives"][rng.randrange(n)] = "ZZnew"
             return d, "one:alternatives"
         if what == "criteria":
-            d["criteria"][rng.randrange(m)] = "ZZnew"
+            if m >= 2 and rng.random() < 0.5:
+                i, j = rng.sample(range(m), 2)
+                d["criteria"][i], d["criteria"][j] = d["criteria"][j], d["criteria"][i]
+            else:
+                d["criteria"][rng.randrange(m)] = "ZZnew"
             return d, "one:criteria"
         if what == "shape_rows":
             d["matrix"].append(list(d["matrix"][0]))
@@ -137,7 +145,11 @@ def perturb(rng, desc, rtol, atol):
             d["method"] = d["method"] + "x"
             return d, "one:method"
         if what == "alternatives":
-            d["alternatives"][rng.randrange(n)] = "ZZnew"
+            if n >= 2 and rng.random() < 0.5:
+                i, j = rng.sample(range(n), 2)
+                d["alternatives"][i], d["alternatives"][j] = d["alternatives"][j], d["alternatives"][i]
+            else:
+                d["alternatives"][rng.randrange(n)] = "ZZnew"
             return d, "one:alternatives"
         if what == "values":
             if d["kernel"]:
@@ -287,7 +299,7 @@ def check(ctx, case, o, mab, mba):
         # aequals / equals in the library ignore dtypes=check flag differences: equals uses check_dtypes=True
         if got != want:
             ctx.disagree(case, {"side": side, "impl": got, "model": want})
-            return
+            break
     ab = o["ab"]
     if "ba" in o and ab["equals"] != o["ba"]["equals"]:
         ctx.oracle_fail(case, {"oracle": "exact equality is not symmetric"})
